@@ -201,8 +201,7 @@ def init_map(endian):
         Reg("Wide", 8, "RW", B(64, 0, 0, 63), off=32, init=("int", (1 << 64) - 1)),
         Reg("WideS", 8, "RW", B(64, 1, 0, 63), off=40, init=("int", -(1 << 63))),
         Reg("U63", 8, "RW", B(64, 0, 1, 63), off=48, init=("int", (1 << 63) - 1)),
-        # a register longer than its integer type: only the first size_of bytes are used
-        Reg("Long", 4, "RW", B(16, 0, 4, 11), off=56, init=("int", 0xAB)),
+        Reg("Mid", 2, "RW", B(16, 0, 4, 11), off=56, init=("int", 0xAB)),
     ]
     return Map("init_%s" % endian.lower(), [Frag("I", 100, endian, regs)], tags=("bfinit",))
 
@@ -228,6 +227,63 @@ def family():
     for i, m in enumerate(maps):
         m.id = i
     return maps
+
+
+# ------------------------------------------------------------------ single declarations ----
+def declarations():
+    """(name, endianness, Reg): single-register maps used to compare what the macro ACCEPTS (compiles) with the
+    decision function of the model; covers every numerical type with matching / shorter / longer len, String and
+    Bytes of several lengths, and BitField positions at and beyond the legal limits in both numberings."""
+    out = []
+
+    def add(name, endian, length, ty):
+        out.append((name, endian, Reg("R", length, "RW", ty)))
+
+    sizes = dict((t, b // 8) for t, (b, _) in SCALARS.items())
+    sizes.update({"f32": 4, "f64": 8})
+    for t, n in sizes.items():
+        add("ok_%s" % t, "LE" if n % 2 else "BE", n, t)
+    for t, ln in (("u16", 4), ("u16", 1), ("u8", 0), ("u8", 2), ("u32", 8), ("i64", 4), ("i32", 3), ("f32", 2),
+                  ("f32", 8), ("f64", 4), ("u64", 16), ("i8", 4)):
+        add("len_%s_%d" % (t, ln), "LE" if ln % 2 else "BE", ln, t)
+    for ln in (0, 1, 5):
+        add("str_%d" % ln, "LE", ln, "String")
+        add("bytes_%d" % ln, "BE", ln, "Bytes")
+    # BitField: raw (declared) positions
+    for bits, sg, e, rl, rm, ln in (
+            (8, 0, "LE", 0, 7, 1), (8, 1, "LE", 7, 7, 1), (64, 1, "LE", 63, 63, 8), (64, 0, "LE", 0, 63, 8),
+            (16, 0, "BE", 15, 0, 2), (16, 1, "BE", 0, 0, 2), (32, 0, "BE", 31, 31, 4), (8, 0, "BE", 7, 0, 1),
+            (8, 0, "LE", 5, 3, 1), (8, 0, "LE", 0, 8, 1), (8, 0, "LE", 8, 8, 1), (16, 1, "LE", 3, 16, 2),
+            (64, 0, "LE", 0, 64, 8), (8, 0, "BE", 3, 5, 1), (8, 0, "BE", 8, 0, 1), (8, 0, "BE", 7, 8, 1),
+            (16, 0, "BE", 16, 16, 2), (32, 1, "BE", 0, 31, 4),
+            (16, 0, "LE", 4, 11, 4), (16, 0, "BE", 11, 4, 1), (64, 0, "LE", 0, 47, 4), (8, 1, "LE", 1, 4, 2),
+            (32, 0, "LE", 0, 31, 8), (16, 1, "BE", 15, 0, 3)):
+        add("bf_%s_%s_%d_%d_len%d" % (int_ty(bits, sg), e.lower(), rl, rm, ln), e, ln, ("bf", bits, sg, rl, rm))
+    return out
+
+
+def decl_accepted_by_property(endian, r):
+    """The property: a numerical register is one value of its type, so its length is the size of the type; a bit
+    field lies inside its integer (positions counted from the least significant bit for LE maps, from the most
+    significant bit for BE maps), LSB below or at MSB."""
+    if r.kind in ("str", "bytes"):
+        return True
+    if r.len != r.bits // 8:
+        return False
+    if r.kind == "bf":
+        _, bits, _, rl, rm = r.ty
+        lsb, msb = (rl, rm) if endian == "LE" else (bits - 1 - rl, bits - 1 - rm)
+        return 0 <= lsb <= msb < bits
+    return True
+
+
+def decl_rust(endian, r):
+    return ("use cameleon_impl::memory::{memory, prelude::*, register_map};\n"
+            "#[register_map(base = 0, endianness = %s)]\npub enum A {\n"
+            "    #[register(len = %d, access = %s, ty = %s)]\n    R,\n}\n"
+            "#[memory]\npub struct M {\n    a: A,\n}\n"
+            "fn main() {\n    let m = M::new();\n    let _ = m.access_right::<A::R>();\n}\n"
+            % (endian, r.len, r.acc, rust_ty(r)))
 
 
 # ---------------------------------------------------------------------------------- Rust ----
